@@ -260,7 +260,7 @@ pub fn statement_trees() -> Vec<(String, Vec<S>)> {
     }
     // nested blocks
     for (n, s) in &stats {
-        out.push((format!("nested {}", n), vec![S::Do(vec![S::If(vec![(id("a"), vec![s.clone()])], Some(vec![s.clone()]))]), S::LocalFunction("g", vec![], false, vec![s.clone(), S::Return(vec![])])]));
+        out.push((format!("nested {}", n), vec![S::Do(vec![S::If(vec![(id("a"), vec![s.clone()])], Some(vec![s.clone()]))]), S::LocalFunction("g", vec![], true, vec![s.clone(), S::Return(vec![])])]));
     }
     out
 }
